@@ -147,6 +147,9 @@ W3 = {
  "C20-w3B": ("middleware/dns64/config.go compileConfig", "the default-to-64:ff9b::/96 block moved after the hasWellKnown()-guarded exclusion parsing: special-use IPv4 ranges are translated under the defaulted prefix", "the well-known prefix in effect only by default and a target in a special-use IPv4 range"),
 }
 T.update(W3)
+# wave 4: table generated from the authors' notes (tools/seeded_w4.json)
+W4 = {k: tuple(v) for k, v in json.load(open('/verif/tools/seeded_w4.json')).items()}
+T.update(W4)
 for i, (where, breaks, needs) in sorted(T.items()):
     d = f"{S}/{i}"
     if not os.path.isdir(d):
@@ -157,7 +160,7 @@ for i, (where, breaks, needs) in sorted(T.items()):
     for root, _, fs in os.walk(f"{d}/demo"):
         for f in fs:
             demos.append(os.path.relpath(os.path.join(root, f), f"{d}/demo"))
-    meta.update({"property": i.split("-")[0], "wave": 3 if "-w3" in i else (2 if "-w2" in i else 1), "changed": where, "breaks": breaks, "needs_to_manifest": needs,
+    meta.update({"property": i.split("-")[0], "wave": 4 if "-w4" in i else (3 if "-w3" in i else (2 if "-w2" in i else 1)), "changed": where, "breaks": breaks, "needs_to_manifest": needs,
                  "demo_files": sorted(demos), "author": "independent sub-agent given only the property text and a scratch worktree",
                  "confirmed_by": "tools/verify_seeded.sh in a scratch worktree of /repo HEAD: patch applies and builds; existing tests of the touched packages with the change; demo with the change (must FAIL); demo without it (must PASS)",
                  "verification": verification(i)})
